@@ -182,10 +182,18 @@ func (m *withExemplarsMetric) Write(pb *dto.Metric) error {
 		return err
 	}
 
+	// The Counter and Histogram written by the wrapped metric might be
+	// shared with it (e.g. const metrics write the same pointer every
+	// time), so inject the exemplars into a copy.
 	switch {
 	case pb.Counter != nil:
-		pb.Counter.Exemplar = m.exemplars[len(m.exemplars)-1]
+		pb.Counter = &dto.Counter{
+			Value:            pb.Counter.Value,
+			Exemplar:         m.exemplars[len(m.exemplars)-1],
+			CreatedTimestamp: pb.Counter.CreatedTimestamp,
+		}
 	case pb.Histogram != nil:
+		pb.Histogram = proto.Clone(pb.Histogram).(*dto.Histogram)
 		for _, e := range m.exemplars {
 			// pb.Histogram.Bucket are sorted by UpperBound.
 			i := sort.Search(len(pb.Histogram.Bucket), func(i int) bool {
